@@ -121,7 +121,7 @@ def run_small(ctx, ns):
                 metas.append({'op': op, 'sides': list(sides), 'n': ns, 'fs': 64, 'centre': 'peak' if peak else 'trough', 'window_samples': [a, b], 'flags': flags, 'cycles': m})
                 k += 1
     judge(ctx, recs, metas, 'small_scope(N=%d)' % ns)
-    ctx.exhaustive = True
+    ctx.parts[-1]['exhaustive_within_bound'] = True        # the bounded part is complete; the run as a whole also samples beyond it
 
 
 def run(ctx):
